@@ -136,6 +136,15 @@ def ensure_tools():
         p = run([os.path.join(d, "gxtool"), "consts"], timeout=120)
         with open(os.path.join(d, "consts.json"), "w") as f:
             f.write(p.stdout)
+        # 4. inventory of order-sensitive / ambient / panic-prone constructs (separate module, type-checked with go/packages)
+        st = os.path.join(CACHE, "_sitestool")
+        with Lock(os.path.join(CACHE, "_lock_sitestool")):
+            srcs = [os.path.join(GOTOOLS, "sitestool", f) for f in ("main.go", "go.mod", "go.sum")]
+            if not os.path.exists(st) or any(os.path.getmtime(x) > os.path.getmtime(st) for x in srcs):
+                run(["go", "build", "-o", st, "."], cwd=os.path.join(GOTOOLS, "sitestool"), timeout=600)
+        p = run([st, REPO], timeout=600)
+        with open(os.path.join(d, "sites.json"), "w") as f:
+            f.write(p.stdout)
         open(stamp, "w").write("%.1f\n" % (time.time() - t0))
         log("tools built for tree %s in %.1fs" % (th, time.time() - t0))
         prune_cache(th)
